@@ -480,3 +480,44 @@ Proof.
   { intros q Hq. unfold L in Hq. apply in_map_iff in Hq. destruct Hq as [k [E Hk]]. subst q. apply in_seq in Hk. apply A. lia. }
   pose proof (NoDup_incl_length NL IL) as Le. unfold L in Le. rewrite map_length, seq_length in Le. exact Le.
 Qed.
+
+(* ================================================================== 7. failures *)
+Lemma mapM_none : forall {A B} (f : A -> option B) l, mapM f l = None -> exists x, In x l /\ f x = None.
+Proof.
+  intros A B f l. induction l as [|a l IH]; cbn [mapM]; [discriminate|].
+  destruct (f a) as [b|] eqn:E; [|intros _; exists a; split; [left; reflexivity | exact E]].
+  destruct (mapM f l) as [bs|]; [discriminate|]. intros _. destruct (IH eq_refl) as [x [H1 H2]]. exists x. split; [right; exact H1 | exact H2].
+Qed.
+
+Lemma forallb_false : forall {A} (f : A -> bool) l, forallb f l = false -> exists x, In x l /\ f x = false.
+Proof.
+  intros A f l. induction l as [|a l IH]; cbn [forallb]; [discriminate|].
+  destruct (f a) eqn:E; cbn [andb]; [|intros _; exists a; split; [left; reflexivity | exact E]].
+  intro H. destruct (IH H) as [x [H1 H2]]. exists x. split; [right; exact H1 | exact H2].
+Qed.
+
+(* the populate loop raises as soon as one group has no container or its population raises *)
+Lemma pop_for_fail : forall pop (body : heap -> pystr * sdict ref -> option heap) G H0,
+  (forall st it, In it G -> body st it = pop_step pop st it) ->
+  NoDup (map fst G) ->
+  (exists s vals, In (s, vals) G /\ forall c, sdict_get s H0 = Some c -> pop s c vals = None) ->
+  py_for G H0 body = None.
+Proof.
+  intros pop body G. induction G as [|[s0 v0] G IH]; intros H0 Hb N [s [vals [Hin F]]]; [destruct Hin|].
+  cbn [py_for]. rewrite (Hb H0 _ (or_introl eq_refl)). unfold pop_step. cbn [fst snd].
+  destruct (sdict_get s0 H0) as [c|] eqn:E1; cbn [obind]; [|reflexivity].
+  destruct (pop s0 c v0) as [c'|] eqn:E2; cbn [obind]; [|reflexivity].
+  cbn [map fst] in N. inversion N as [|? ? Hs0 N']; subst.
+  apply IH; [intros st it Hit; apply Hb; right; exact Hit | exact N' |].
+  destruct Hin as [Hin|Hin].
+  - inversion Hin; subst s vals. rewrite (F c E1) in E2. discriminate.
+  - exists s, vals. split; [exact Hin|]. intros d Hd. apply F. rewrite sdict_get_set_other in Hd; [exact Hd|].
+    intro K. subst s. apply Hs0. apply (in_map fst) in Hin. exact Hin.
+Qed.
+
+Lemma populate_spec_none_tokens : forall {V W} e (v1 : list (token * V)) (v2 : list (token * W)),
+  map fst v1 = map fst v2 -> populate_spec e v1 = None -> populate_spec e v2 = None.
+Proof.
+  intros V W e v1 v2 T H. destruct (populate_spec e v2) as [c|] eqn:E; [|reflexivity].
+  apply populate_spec_ok_inv in E. rewrite <- T in E. destruct (populate_spec_ok e v1 E) as [c1 E1]. congruence.
+Qed.
